@@ -46,7 +46,7 @@ def main():
     out = os.path.join(VERIF, "seeded", sid)
     os.makedirs(out, exist_ok=True)
     for f in ("patch.diff", "demo.py", "notes.md"):
-        if os.path.exists(os.path.join(src, f)):
+        if os.path.exists(os.path.join(src, f)) and os.path.realpath(os.path.join(src, f)) != os.path.realpath(os.path.join(out, f)):
             shutil.copy(os.path.join(src, f), os.path.join(out, f))
     wt = "/tmp/seedwt_%s_%d" % (sid, os.getpid())
     meta = {"seed": sid, "breaks_property": prop, "ran": [], "at": time.strftime("%Y-%m-%d %H:%M:%S")}
